@@ -113,7 +113,8 @@ CHECKS = {
  "C10": dict(
   technique="Lean 4 theorems for the parser part (C02) + exhaustive query sweep (exploration) on damaged workspaces",
   text=("Proved: the parser, first stage of every query, never fails a precondition assertion, never bumps past the end and terminates, on every "
-        "token list (corollaries of C02's checker soundness, Props/C10.lean). Everything after parsing (lowering, scopes, inference, salsa) is "
+        "token list (corollaries of C02's checker soundness, Props/C10.lean); parse_total: the model of parse_module returns a tree for every text "
+        "unless the parser's own look-ahead guard fires (mark discipline + tree builder, Props/C02Marks.lean). Everything after parsing (lowering, scopes, inference, salsa) is "
         "EXPLORED, not proved: every query (hover, go-to-definition, references, highlight, completion plain/./@, signature help, prepare-rename, "
         "rename, diagnostics, semantic highlighting, syntax tree) at every token boundary of every file of generated, damaged, truncated, "
         "duplicated, import-rewired (cycles, self-imports), degenerate and syntax-soup workspaces, each under catch_unwind, aborts isolated per "
@@ -178,7 +179,9 @@ CHECKS = {
         "moves the position and emits one Advance (exec_advances), a well-shaped main consumes every token (main_consumes_all), events are "
         "balanced, and the tree builder under a sound policy returns a tree whose leaves are the raw tokens (buildTree_lossless); the side "
         "conditions are decided on the GENERATED program and policy on every run (glas_mainShape, glas_policyOK, glas_rootStart, glas_noSkip), "
-        "giving C01_lossless for the model of parse_module, with or without syntax errors (Props/C01.lean). Tie: generated model vs parse_module on "
+        "giving C01_lossless for the model of parse_module, with or without syntax errors (Props/C01.lean); C01_total (Props/C02Marks.lean): for "
+        "EVERY text the model returns such a tree (the builder cannot fail, no node is left unfinished) unless the parser's own look-ahead guard "
+        "fires (the recorded C02 finding). Tie: generated model vs parse_module on "
         "~10^5 inputs (exhaustive token-class sequences to length 3/4, corpus, prefixes, grammar-generated and mutated programs); the round-trip "
         "oracle is evaluated on the implementation."),
   note=TB + SYN, ref="5.C01, 4.1, Appendix A"),
@@ -189,8 +192,12 @@ CHECKS = {
         "the program regenerated from parser.rs (decide +kernel). Hence for every token list: no assert! fails, bump is never called at end of input, "
         "every loop iteration and recursion cycle consumes a token, fuel 746+745*len suffices (C02_safe, C02_terminates). PARTIAL: the parser's own "
         "look-ahead guard (`parser is stuck`) and recursion depth are NOT bounded on the current tree - kernel-evaluated witnesses in "
-        "Props/C02Witness.lean, replayed on the implementation and listed in known_findings.json; mark discipline (no leaked/misused marks, builder "
-        "never panics) is covered by the differential only."),
+        "Props/C02Witness.lean, replayed on the implementation and listed in known_findings.json. Mark discipline (Props/C02Marks.lean): a second "
+        "certificate checker mcheck (live marks of each frame as a stack ordered by event position, opened/closed; start_node_before only on the "
+        "topmost closed mark; exactly the topmost mark passed to a callee; nothing opened left at any exit) with mcheck_sound proved for all "
+        "programs and glas_marks_checked evaluated on the regenerated program: no stale or empty mark is ever used, no node is left unfinished, "
+        "no call hands back a value of the wrong shape. C02_total: on EVERY token list the run with linear fuel ends normally with all nodes "
+        "finished or in the parser's own look-ahead guard - nothing else; C01_total: the tree builder never fails."),
   note=TB + SYN + "Not modelled: the Rust call stack (depth is observed in the model as a number; the abort is observed on the implementation).",
   ref="5.C02, Appendix A.2-A.5"),
  "C04": dict(
